@@ -465,6 +465,7 @@ func Run(c *hx.Ctx) {
 			}
 			if o.member != nil {
 				signersCases(c, o.member, 4)
+				chainCase(c, in, o.member)
 			}
 			continue
 		}
@@ -517,9 +518,8 @@ func Run(c *hx.Ctx) {
 			c.Sample(map[string]interface{}{"height": b.Height, "root": b.Exec.Root, "hash": b.Exec.Hash,
 				"write_set_entries": b.Exec.WSLen, "notifications": len(b.Exec.Notify), "refused": b.Rejected})
 		}
-		if !o.failed {
-			chainCase(c, in, o.member)
-		}
+		// the model re-computes the member's chain whether or not the nodes agreed
+		chainCase(c, in, o.member)
 		signersCases(c, o.member, c.N(60, 200))
 	}
 	c.Note(fmt.Sprintf("node time (ledger work inside the node processes): %d ms for %d inputs", ms, len(ins)))
